@@ -71,6 +71,7 @@ def check(ctx):
             helper_defect = None
             for x in [x for x in ast.walk(amt) if isinstance(x, ast.Call) and isinstance(x.func, ast.Attribute)]:
                 helper_defect = helper_defect or _capacity_helper_defect(ctx, f, x)
+            helper_defect = helper_defect or _capacity_memo_defect(f, amt, ex, d_arg)
             if helper_defect:
                 o.refute(f, c, amount, helper_defect)
                 continue
@@ -238,6 +239,11 @@ def check(ctx):
                 elif match("self.calendar.get_available_units($d)", v) and any(match("$u is None", t) and not p for t, p in conds):
                     good += 1
                     o.site(f, r, 'return units under `is not None`')
+                elif (match("round($*a)", v) or match("math.ceil($x)", v) or match("ceil($x)", v)) and \
+                        any(match("self.calendar.get_available_units($d)", x) for x in ast.walk(v)):
+                    # the calendar's answer rounded: half of the values are rounded UP, so the resource reports more than its calendar offers
+                    o.refute(f, r, r, f"get_available_units returns `{src(v)[:80]}`: the calendar's answer rounded (rounding to nearest / up yields "
+                                      f"more than the calendar offers for half of the values, and the schedulers book against it), not the calendar value itself")
                 elif match("self.calendar.get_available_units($d)", v) or isinstance(v, ast.Constant) or \
                         (match("$a if $c else $b", v) and any(match("self.calendar.get_available_units($d)", x) for x in ast.walk(v))) or \
                         any(isinstance(x, ast.Subscript) or (isinstance(x, ast.Attribute) and isinstance(x.value, ast.Name) and x.value.id == f.params[0]
@@ -309,7 +315,20 @@ def check(ctx):
                             return None
                         led_def = root_def(led, at) if led is not None else None
                         passed = [c for f2, c in sched.pass_call_sites(ctx, S) if f2 is calc]
-                        if led_def is not None and passed and all(any(root_def(a, cfgc.node_containing(c)) is led_def
+
+                        def carried(a, at_):
+                            """definitions an argument hands over: its own root, and - when it is a parameter object built by a
+                            constructor call in this function (`state = _PassState(ledger, [])`) - the roots of what it was built from"""
+                            d_ = root_def(a, at_)
+                            out_ = [d_] if d_ is not None else []
+                            if d_ is not None and isinstance(d_.value, ast.Call) and d_.node is not None:
+                                for x_ in list(d_.value.args) + [k_.value for k_ in d_.value.keywords]:
+                                    if isinstance(x_, (ast.Name, ast.Attribute)):
+                                        dx_ = root_def(x_, d_.node)
+                                        if dx_ is not None:
+                                            out_.append(dx_)
+                            return out_
+                        if led_def is not None and passed and all(any(any(d_ is led_def for d_ in carried(a, cfgc.node_containing(c)))
                                                                      for a in c.args if isinstance(a, (ast.Name, ast.Attribute))) for c in passed):
                             o.site(calc, r, src(rep))
                         else:
@@ -491,6 +510,16 @@ def report_rows(ctx, o):
             # the stored list itself: every row, no filter
             parsed.append((r, v, None, None, []))
             continue
+        memo = r.value if isinstance(r.value, ast.Attribute) else v
+        if isinstance(memo, ast.Attribute) and isinstance(memo.value, ast.Name) and memo.value.id == rf.params[0] and \
+                memo.attr != '_ResourceUsageReport__rows' and \
+                any(not (isinstance(val_, ast.Constant) and val_.value is None) for _st, _tg, val_ in facts.attr_stores(rf, memo.attr)):
+            # a view computed once, kept in the report and handed out again on later calls: one list object shared by all callers
+            o.refute(rf, r, r, f"rows() hands out `{src(memo)}`, a list it stores in the report and returns again on later calls instead of building "
+                               f"the view from the stored rows each time: every caller gets the same list object, so a caller that sorts / trims / "
+                               f"clears its result changes what rows() answers afterwards, while reserved() and the filtered views still read the "
+                               f"stored rows (the report's views no longer agree with its rows)")
+            return
         parts = facts.comp_parts(v) if v is not None else None
         if not parts or not isinstance(v, (ast.ListComp, ast.GeneratorExp)) or not isinstance(parts[1], ast.Name):
             o.undecided(rf, r, r, f"rows() returns `{src(v)[:80] if v is not None else 'None'}`: not a collection over the stored rows in a form the rule follows")
@@ -882,6 +911,33 @@ def _capacity_helper_defect(ctx, f, call):
                 return (f"the capacity comes from `{src(call)[:50]}` ({h.qual}), which memoises `{src(caps[0])[:50]}` under the key `{src(key)[:50]}`: "
                         f"the key does not contain the resource `{rp.id}`, so a resource is booked against the capacity another resource reported "
                         f"for that day (more than its own calendar offers)")
+    return None
+
+
+def _capacity_memo_defect(f, amt, ex, d_arg):
+    """the capacity in the booked amount is read from a local table (`memo[K]`) that the function fills with
+    `memo[K] = resource.get_available_units(day, task)`: the entry stands for the day only if K determines the day.  A key made of
+    a part of the date (weekday, day of month, month ...) hands the capacity of one calendar day to every other day that shares
+    that part.  Returns a message, or None (no such table / the key is not recognised as partial)"""
+    for x in ast.walk(amt):
+        if not (isinstance(x, ast.Subscript) and isinstance(x.value, ast.Name) and x.value.id not in f.params):
+            continue
+        fills = [st for st in walk_no_nested(f.node) if isinstance(st, ast.Assign) and len(st.targets) == 1 and
+                 isinstance(st.targets[0], ast.Subscript) and isinstance(st.targets[0].value, ast.Name) and
+                 st.targets[0].value.id == x.value.id and any(parse_cap(y) for y in ast.walk(st.value))]
+        for st in fills:
+            key = ex.expand(st.targets[0].slice, cfg_of(f).node_of(st))
+            names = {y.attr for y in ast.walk(key) if isinstance(y, ast.Attribute)}
+            if facts.is_midnight_of(key) is not None or same(key, d_arg):
+                continue        # keyed by the day itself (whole date)
+            partial = names & {'tm_yday', 'tm_mday', 'tm_wday', 'tm_mon', 'day', 'month', 'weekday', 'isoweekday', 'hour'}
+            whole = names & {'year', 'tm_year', 'toordinal', 'date', 'timestamp', 'isoformat', 'isocalendar'}
+            if partial and not whole:
+                cap = next(y for y in ast.walk(st.value) if parse_cap(y))
+                return (f"the capacity in the booked amount is read from the table `{x.value.id}`, which keeps `{src(cap)[:60]}` under the key "
+                        f"`{src(key)[:40]}` - only a part of the date ({', '.join(sorted(partial))}): every later day that shares it is booked against "
+                        f"the capacity the calendar reported for the first such day, not its own (a day the calendar closes or shortens is "
+                        f"over-allocated)")
     return None
 
 
